@@ -9,6 +9,7 @@ import (
 	"sync/atomic"
 	"time"
 
+	"github.com/CorentinB/warc"
 	"github.com/internetarchive/Zeno/internal/pkg/archiver"
 	"github.com/internetarchive/Zeno/internal/pkg/config"
 	"github.com/internetarchive/Zeno/internal/pkg/controler/pause"
@@ -340,6 +341,26 @@ func (p *Pipeline) WARCQueue() int {
 		return 0
 	}
 	return archiver.GetWARCWritingQueueSize()
+}
+
+// HoldWARCWriter puts a gate in front of the WARC writers of every client: record batches queue up (as they do behind a
+// slow disk or a busy writer pool) until release is called. Must be called before the first request.
+func (p *Pipeline) HoldWARCWriter() (release func()) {
+	gate := make(chan struct{})
+	for _, c := range archiver.GetClients() {
+		inner := c.WARCWriter
+		outer := make(chan *warc.RecordBatch, cap(inner))
+		c.WARCWriter = outer
+		go func() {
+			defer close(inner) // the client's Close() closes the channel it knows (outer): pass that on
+			<-gate
+			for b := range outer {
+				inner <- b
+			}
+		}()
+	}
+	var once sync.Once
+	return func() { once.Do(func() { close(gate) }) }
 }
 
 // Stop stops the stages in the order of controler.stopPipeline and makes them startable again. The job directory is kept
